@@ -489,7 +489,7 @@ def main():
     n_deg = 40 if a.tier == "quick" else 400
     budget = 30 if a.tier == "quick" else 300
     for i in range(n_main):
-        if time.time() - rec.t0 > budget:
+        if time.process_time() - rec.cpu0 > 2 * budget:
             rec.tally("stopped_on_time_budget")
             break
         try:
